@@ -2099,3 +2099,33 @@ extra_c10 = _chain(extra_c10, odd_meshes_c10)
 extra_c01 = _chain(extra_c01, odd_meshes_c01)
 extra_c05 = _chain(extra_c05, descending_c05)
 extra_c12 = _chain(extra_c12, huge_1d_c12)
+
+
+def huge_2d_c07(ctx, pf):
+    """one implicit step on a Grid2D with more than 500 000 unknowns (diffusion, upwind advection in a uniform velocity field, a local sink; Dirichlet 1 on
+    the left, no-flux elsewhere; data 0 / 1): the result must stay inside [0, 1] to rounding -- solver paths chosen by problem size show here"""
+    n = 0
+    N = 720
+    mesh = pf.Grid2D(N, N, 1.0, 1.0)
+    with np.errstate(all="ignore"):
+        x = np.asarray(mesh.cellcenters._x)[:, None]; y = np.asarray(mesh.cellcenters._y)[None, :]
+        init = ((x > 0.3) & (x < 0.6) & (y > 0.2) & (y < 0.7)).astype(float)
+        phi = pf.CellVariable(mesh, init); phi.BCs.left.fixedValue(1.0); phi.apply_BCs()
+        D = pf.FaceVariable(mesh, 1e-3); u = pf.FaceVariable(mesh, 0.0); u._xvalue[...] = 1.0; u._yvalue[...] = 0.5
+        beta = pf.CellVariable(mesh, ((x > 0.9) & (y > 0.9)).astype(float) * 0.5)
+        Md = pf.diffusionTerm(D); Mu = pf.convectionUpwindTerm(u); Ms = pf.linearSourceTerm(beta)
+        worst = 0.0; bad_dt = None
+        for dt in (1e-3, 1e-2):
+            pf.solvePDE(phi, [pf.transientTerm(phi, dt, 1.0), -Md, Mu, Ms])
+            v = np.asarray(phi.value, dtype=float)
+            n += 1
+            over = max(float(np.max(v)) - 1.0, 0.0 - float(np.min(v))) if np.all(np.isfinite(v)) else float("inf")
+            if over > worst:
+                worst, bad_dt = over, dt
+    if worst > 1e-11:
+        ctx.violation("c07:Grid2D:huge", f"Grid2D {N} x {N} ({(N + 2) ** 2} unknowns): an implicit step (dt = {bad_dt:g}) of diffusion + upwind advection (uniform velocity) + sink leaves the range [0, 1] of the data by {worst:.3g}",
+                      {"cls": "Grid2D", "cells": [N, N], "dt": bad_dt, "D": 1e-3, "u": [1.0, 0.5]})
+    return n
+
+
+extra_c07 = _chain(extra_c07, huge_2d_c07)
